@@ -174,3 +174,74 @@ func (x w9RichWriter) ReadFrom(rd io.Reader) (int64, error) {
 	n, err := x.w.Write(data)
 	return int64(n), err
 }
+
+// c16RichEncoder: the generic Encoder over a writer that also has WriteByte, WriteString and
+// ReadFrom, each of which may be the call that is refused once (the writer works again
+// afterwards).  Judged as the property states it, whatever calls the library chooses to make:
+// the library call during which the refusal happened returns an error wrapping the writer's,
+// nothing is written after it, and what was accepted is as long as the corresponding prefix of
+// the fault-free output (same calls, same history; the sync marker differs from run to run, so
+// the contents are compared up to the end of the header's metadata only).
+func c16RichEncoder(r *Run) {
+	nh := r.N(10, 40)
+	for it := 0; it < nh; it++ {
+		h := w9GenHistory(r, r.N(12, 30), r.N(200, 400), false)
+		if it%3 == 0 {
+			// blocks of 64+ records and of 64+ bytes: counts and lengths of two bytes and more
+			h.Size = 300 + r.Rng.Intn(2000)
+		}
+		desc := w9DescribeHist(h)
+		run := func(w *w9RecWriter) (errAt int, errs []error, pn any) {
+			errAt = -2
+			enc, err, p := w9NewWenc(h.Kind, w9RichWriter{w}, h.Codec, h.Size)
+			if p != nil || err != nil {
+				if err != nil {
+					errs = append(errs, err)
+				}
+				return -1, errs, p
+			}
+			for i, o := range h.Ops {
+				err, p := w9CallOp(enc, o)
+				if p != nil || err != nil {
+					if err != nil {
+						errs = append(errs, err)
+					}
+					return i, errs, p
+				}
+			}
+			return
+		}
+		ff := &w9RecWriter{failAt: -1}
+		if at, errs, pn := run(ff); pn != nil || len(errs) > 0 {
+			r.Fail(-1, "call-failed", fmt.Sprintf("Encoder over a working writer with WriteByte/WriteString/ReadFrom: call %d: errors %v panic %v", at, errs, pn), map[string]any{"history": desc})
+			continue
+		}
+		r.Count("rich-encoder/histories")
+		for k := 0; k < len(ff.chunks); k++ {
+			partial := 0
+			if len(ff.chunks[k]) > 1 && r.Rng.Intn(2) == 0 {
+				partial = 1 + r.Rng.Intn(len(ff.chunks[k])-1)
+			}
+			w := &w9RecWriter{failAt: k, partial: partial}
+			at, errs, pn := run(w)
+			d2 := map[string]any{"history": desc, "fail_at_write": k, "partial": partial, "writer_has_WriteByte_WriteString_ReadFrom": true}
+			r.Count("rich-encoder/fault-runs")
+			wantLen := partial
+			for _, ch := range ff.chunks[:k] {
+				wantLen += len(ch)
+			}
+			switch {
+			case pn != nil:
+				r.Fail(-1, "fault-panic", fmt.Sprintf("call %d panicked when write %d was refused: %v", at, k, pn), d2)
+			case len(errs) == 0:
+				r.Fail(-1, "fault-not-reported", fmt.Sprintf("write %d was refused and every Encoder call returned nil", k), d2)
+			case !errors.Is(errs[len(errs)-1], w9ErrWriterSentinel):
+				r.Fail(-1, "fault-not-wrapped", fmt.Sprintf("call %d returned %q, which does not wrap the writer's error", at, errs[len(errs)-1]), d2)
+			case w.afterFault > 0:
+				r.Fail(-1, "fault-not-prefix", fmt.Sprintf("%d writes were issued after the refused one (before call %d returned)", w.afterFault, at), d2)
+			case len(w.acc) != wantLen:
+				r.Fail(-1, "fault-not-prefix", fmt.Sprintf("%d bytes accepted, the first %d writes and the partial one amount to %d", len(w.acc), k, wantLen), d2)
+			}
+		}
+	}
+}
